@@ -160,7 +160,7 @@ def procCase (inp impl : String) : CaseOut :=
         ("C13", allWrapped mw tr, "a delivery bypassed (part of) the middleware chain or ran it out of order"),
         ("C05", replayPrefixOK batches tr, s!"user deliveries {repr (userRecvs tr)} are not a prefix of the history (lost, duplicated, reordered or wrong sender)"),
         ("C05", replayCompleteOK batches tr alive, "actor alive at the end but not every message was delivered"),
-        ("C06", restartsOK max tr, "restart events not numbered 1..n or more than MaxRestarts"),
+        ("C05+C06", restartsOK max tr, "restart events not numbered 1..n (C05: each ActorRestartedEvent carries the incremented count) or more than MaxRestarts (C06)"),
         ("C06", afterMaxOK tr && (!tr.contains (.ev .maxRestarts) || (!it.open_ && !it.reg)),
            "budget exhausted but the actor was not stopped cleanly (inbox stop, unregister, one Stopped, stopped event, nothing afterwards)"),
         ("C07", cancelOK batches tr, "a stop context became done before Stopped+unregistration (or before the drain)")]
